@@ -55,6 +55,19 @@ func runC02(c *Ctx) {
 	} else {
 		r.Fail("X10", "v1:priority.Discipline", "-", "UNRESOLVED-ANCHOR: v1 priority discipline not found")
 	}
+	// X15 (= E7): v1 Simple closes its output only after the handlers were joined: a handler that
+	// comes back to its select finds the closed channel ready and calls Handle with a zero item
+	// nobody wrote
+	r.Doc("X15", "(= C07 E7) v1 Simple: the handlers are joined (wg.Wait) before the output they read is closed and before any signal: nothing that was not written is handed to Handle", 3)
+	if d := c.V1.Disc("priority.Simple"); d != nil {
+		for _, e := range d.Gos {
+			if !e.Multi && e.Parent == nil {
+				childJoinRules(c, c.V1.Routine(d, e), "X15")
+			}
+		}
+	} else {
+		r.Fail("X15", "v1:priority.Simple", "-", "UNRESOLVED-ANCHOR: v1 Simple not found")
+	}
 	// X13: the handlers exist
 	r.Doc("X13", "simplified disciplines: the handler goroutines are started on every successful construction", 2)
 	checkHandlersStarted(c, c.V1, "X13")
